@@ -2,7 +2,8 @@
 #include "verif.h"
 typedef size_t size_type; typedef size_t sokey_type;
 #define LOOP_rev_1
-#define LOOP_rehash_1
+/* rehash has no loop on the pinned tree; should one appear (the source carries a TODO about it) it is proved against this contract */
+#define LOOP_rehash_1 __CPROVER_assigns(current_bucket_count, G->my_bucket_count) __CPROVER_loop_invariant(POW2(G->my_bucket_count))
 #define POW2(x) ((x) != 0 && (((x) & ((x) - 1)) == 0))
 struct cub { size_type my_bucket_count; float my_max_load_factor; };
 /* RG on my_bucket_count: INV = power of two; two-state: it only grows */
